@@ -25,7 +25,9 @@ Inductive clskind :=
 | KPedantic                      (* @pedantic_class, Generic not among the bases *)
 | KGeneric (tparams : list nat). (* @pedantic_class class C(Generic[T1, ..., Tn]) : ids of T1..Tn *)
 
-Record cdef := { cd_kind : clskind; cd_init : option msig; cd_methods : list msig }.
+(* cd_kind: how the implementation treats the class; cd_tparams: the type parameters the class
+   declares (what Cls[X] binds; for KGeneric ids the same list) *)
+Record cdef := { cd_kind : clskind; cd_tparams : list nat; cd_init : option msig; cd_methods : list msig }.
 Record world := { w_classes : list cdef; w_funs : list msig }.
 
 (* an instance: its class, the arguments of __orig_class__ (once it exists), the attribute __pedantic_a42__ *)
